@@ -328,3 +328,43 @@ collect_harness!(c44_collect_ssf, 3, [0, 0, 1], 6); // duplicate Sync, then Foll
 collect_harness!(c44_collect_ffs, 3, [1, 1, 0], 6); // duplicate Follow_Up, then Sync
 collect_harness!(c44_collect_srf, 3, [0, 2, 1], 6); // a request in between
 collect_harness!(c44_collect_fsf, 3, [1, 0, 1], 6); // measurement completes at the second datagram, third unread
+
+/// Fallback for the response-collection loop (the async `collect_response` harnesses above exhaust
+/// 8 GB / 25 min even for a single datagram): what the loop reads from an answer. Template
+/// Sync + CSPTP response TLV through the crate's own `CsptpMessage::deserialize` (thin hook):
+/// accepted iff well-formed, classified as a response, and every field the loop uses (domain,
+/// sequence id, two-step flag, correction field, origin timestamp, reqIngressTimestamp,
+/// reqCorrectionField) equals the bytes at its IEEE 1588 / CSPTP wire offset. The comparison of
+/// domain and sequence id with the pending request happens inline in `collect_response` and is
+/// NOT covered by this harness.
+#[kani::proof]
+#[kani::unwind(5)]
+fn c44_accept() {
+    use statime_csptp::verif::messages as gh;
+    let d = any_dgram(0);
+    let b = &d.bytes;
+    let parsed = gh::msg_deserialize(&b[..66]);
+    assert!(parsed.is_some() == well_formed(&d, 0), "answer template parses iff sdoId 0x300, PTP version 2, valid timestamps");
+    let Some(msg) = parsed else { return };
+    assert!(gh::msg_is_response(&msg) && !gh::msg_is_request(&msg), "a Sync with a response TLV is a response");
+    let m = gh::msg_message(&msg);
+    assert!(m.header.domain_number == b[4], "domain read from octet 4");
+    assert!(m.header.sequence_id == be16(b, 30), "sequence id read from octets 30..32");
+    assert!(m.header.two_step_flag == (b[6] & 2 != 0), "two-step flag read from flagField bit 1");
+    assert!(m.header.correction_field.0 == be64(b, 8) as i64, "correction field read from octets 8..16");
+    assert!(m.header.leap61 == (b[7] & 1 != 0) && m.header.leap59 == (b[7] & 2 != 0), "leap flags");
+    let statime_wire::MessageBody::Sync(sync) = &m.body else {
+        assert!(false, "template is a Sync");
+        return;
+    };
+    assert!(ts_pair(sync.origin_timestamp) == raw_ts(b, 34), "origin timestamp read from octets 34..44");
+    let first = m.suffix.tlvs().next();
+    let Some(t) = first else {
+        assert!(false, "the response TLV is iterated");
+        return;
+    };
+    assert!(t.tlv_type == statime_wire::TlvType::CsptpResponse && t.value.len() == 18, "response TLV");
+    assert!((be48(&t.value, 0), be32(&t.value, 6)) == raw_ts(b, 48), "reqIngressTimestamp bytes");
+    assert!(be64(&t.value, 10) == be64(b, 58), "reqCorrectionField bytes");
+    kani::cover!(b[6] & 2 != 0 && b[4] == 128, "two-step answer in the default domain");
+}
